@@ -6,13 +6,14 @@ EXTENDS Partition, TLC, Json
 
 CONSTANTS Kind, VarUnknown, VarAdd, InitLimit, Limits, MaxOut, Emit
 
-Keys == {"a", "b", "z"}
+Keys == {"a", "b", "z", "Z"}   \* "Z" reaches pc only through its case-insensitive matcher
 
 MCcfg ==
   [kind |-> Kind, den |-> 4, limit |-> InitLimit,
-   objs |-> [pa |-> [name |-> "a", num |-> 1, match |-> <<"a">>, built |-> 1],
-             pb |-> [name |-> "b", num |-> 2, match |-> <<"b", "a">>, built |-> 1],
-             pc |-> [name |-> "a", num |-> 1, match |-> <<"a", "z">>, built |-> 1]],
+   objs |-> [pa |-> [name |-> "a", num |-> 1, match |-> <<"a">>, built |-> 1, ci |-> FALSE],
+             pb |-> [name |-> "b", num |-> 2, match |-> <<"b", "a">>, built |-> 1, ci |-> FALSE],
+             pc |-> [name |-> "a", num |-> 1, match |-> <<"a", "z">>, built |-> 1, ci |-> TRUE]],
+   lower |-> [a |-> "a", b |-> "b", z |-> "z", Z |-> "z", A |-> "a", B |-> "b"],
    init |-> <<"pa", "pb">>,
    variant |-> [unknown |-> VarUnknown, add |-> VarAdd]]
 
